@@ -6,6 +6,7 @@
 import BioCantor.Gen.Kernels
 import BioCantor.Gen.Tables
 import BioCantor.Spec.Bins
+set_option autoImplicit false   -- an unresolved name in a statement must be an error, never a bound variable
 namespace BioCantor.Props.C16
 open BioCantor BioCantor.GenP BioCantor.Gen BioCantor.Spec
 
